@@ -247,6 +247,22 @@ func judge(w *world, stuck bool) string {
 	if firstSetEnd >= 0 && winners != 1 {
 		return "not exactly one Set won"
 	}
+	// "every observer thereafter sees the winner's error": thereafter starts with the first call that returned having
+	// seen the signal set - a completed Set, but also a Get/IsSet/poll/Wait that reported it set or an Err that
+	// returned an error. Whatever starts after that call returned must see the signal set as well (an observer that
+	// is told "set" by Err and "not set" by the IsSet it calls next has seen the signal go backwards).
+	for _, o := range w.obs {
+		saw := false
+		switch o.kind {
+		case "get", "isset", "poll", "wait":
+			saw = o.ok
+		case "err":
+			saw = o.err != nil
+		}
+		if saw && o.panicked == "" && (firstSetEnd < 0 || o.end < firstSetEnd) {
+			firstSetEnd = o.end
+		}
+	}
 	var ch any
 	for _, o := range w.obs {
 		after := firstSetEnd >= 0 && o.start > firstSetEnd
